@@ -942,8 +942,9 @@ static JanetSlot janetc_while(JanetFopts opts, int32_t argn, const Janet *argv) 
 
     /* Calculate jumps */
     labeld = janet_v_count(c->buffer);
-    /* The conditional jump out of the loop has a 16 bit offset, the jump back (and every break) 24 bits. */
-    if ((!infinite && (labeld - labelc) > INT16_MAX) || (labeljt - labelwt) > 0x7FFFFF) {
+    /* The conditional jump out of the loop has a 16 bit offset, the jump back and every break 24 bits.
+     * The longest jump is that of a break at the top of the loop: labeld - labelwt, one more than the jump back. */
+    if ((!infinite && (labeld - labelc) > INT16_MAX) || (labeld - labelwt) > 0x7FFFFF) {
         janetc_cerror(c, "jump is too far");
         janetc_popscope(c);
         return janetc_cslot(janet_wrap_nil());
